@@ -164,11 +164,41 @@ class RankFacts:
             return self._count(v.args[2].args)   # sampler.sample((*batch_size, n, 2))
         return None
 
+    def _starred_axes(self, x: S) -> Optional[int]:
+        """Number of axes a starred size argument stands for: `*batch_size` is ONE axis (rl4co batches are one-dimensional),
+        `*t.shape[:k]` is k axes, `*t.shape[:-k]` is rank(t) - k axes, `*t.shape` is rank(t); anything else is unknown."""
+        inner = nf.strip(x.args[0]) if x.args and isinstance(x.args[0], S) else None
+        if inner is None:
+            return None
+        if "batch_size" in vg.show(inner, 3) and inner.op != "sub":
+            return 1
+        if inner.op == "attr" and inner.args[1] == "batch_size":
+            return 1
+        if inner.op == "attr" and inner.args[1] == "shape" and isinstance(inner.args[0], S):
+            return self.rank(inner.args[0], 1)
+        if inner.op == "sub" and isinstance(inner.args[0], S) and isinstance(inner.args[1], S) and inner.args[1].op == "slice":
+            b = nf.strip(inner.args[0])
+            lo, hi, st = inner.args[1].args
+            if not (vg.is_none(lo) or _cint(lo) == 0) or not vg.is_none(st):
+                return None
+            k = _cint(hi)
+            if b.op == "attr" and b.args[1] == "batch_size":
+                return 1 if (k is None or k >= 1) else None
+            if b.op == "attr" and b.args[1] == "shape" and k is not None:
+                if k >= 0:
+                    return k
+                r = self.rank(b.args[0], 1) if isinstance(b.args[0], S) else None
+                return None if r is None else r + k
+        return None
+
     def _count(self, items) -> Optional[int]:
         n = 0
         for x in items:
             if isinstance(x, S) and x.op == "starred":
-                n += 1  # *batch_size: the batch axis (batch_size is 1-d in rl4co envs)
+                k = self._starred_axes(x)
+                if k is None:
+                    return None
+                n += k
             elif isinstance(x, S) and (x.op in ("const", "sub", "+", "-", "*", "//", "attr", "meth", "param", "selfattr") or True):
                 n += 1
         return n
